@@ -9,7 +9,9 @@ Section Parallel.
   Variable retrieve : str -> str -> res retrieved.
 
   Notation ev := (expand_value def retrieve).
-  Notation er := (expand_rec def retrieve).
+  (* [er] = plain iteration of rounds (no budget): the structure theorems are about the rounds; [bridge] below
+     carries them to expandValueRecursively with its work budget *)
+  Notation er := (expand_rec_old def retrieve).
 
   (* the two anonymous loops of expandValue as functions of their own *)
   Fixpoint expand_list (l : list cv) : res (list cv * bool) :=
@@ -108,15 +110,15 @@ Section Parallel.
   Qed.
 
   Lemma er_stable f v : ev v = Ok (v, false) -> er (S f) v = Ok v.
-  Proof. intros H. now apply expand_rec_unchanged. Qed.
+  Proof. intros H. now apply expand_rec_old_unchanged. Qed.
 
   Lemma er_mono f : forall v y, er f v = Ok y -> er (S f) v = Ok y.
   Proof.
     induction f as [|f IH]; intros v y H; [discriminate|].
-    cbn [expand_rec] in H. destruct (ev v) as [[v' c]|e] eqn:E; [|discriminate].
+    cbn [expand_rec_old] in H. destruct (ev v) as [[v' c]|e] eqn:E; [|discriminate].
     destruct c.
-    - rewrite (expand_rec_changed def retrieve _ _ _ E). now apply IH.
-    - now rewrite (expand_rec_unchanged def retrieve _ _ _ E).
+    - rewrite (expand_rec_old_changed def retrieve _ _ _ E). now apply IH.
+    - now rewrite (expand_rec_old_unchanged def retrieve _ _ _ E).
   Qed.
 
   Lemma er_mono_le f g v y : f <= g -> er f v = Ok y -> er g v = Ok y.
@@ -144,10 +146,10 @@ Section Parallel.
     - (* one round: nobody may change *)
       assert (Hl : expand_list xs = Ok (ys, false)).
       { induction H as [|x y r r' Hx Hr IHr]; [reflexivity|].
-        cbn [expand_rec] in Hx. destruct (ev x) as [[x' c]|e] eqn:Ex; [|discriminate].
+        cbn [expand_rec_old] in Hx. destruct (ev x) as [[x' c]|e] eqn:Ex; [|discriminate].
         destruct c; [discriminate|]. inversion Hx; subst.
         cbn [expand_list]. rewrite Ex, IHr. reflexivity. }
-      apply expand_rec_unchanged. now rewrite ev_list, Hl.
+      apply expand_rec_old_unchanged. now rewrite ev_list, Hl.
     - (* first round, then the induction hypothesis on what the members have become *)
       assert (Hl : exists xs' c, expand_list xs = Ok (xs', c) /\
                    (c = false -> xs' = ys) /\
@@ -155,7 +157,7 @@ Section Parallel.
       { induction H as [|x y r r' Hx Hr IHr].
         - exists [], false. repeat split; auto; discriminate.
         - destruct IHr as [r1 [c1 [E1 [F1 T1]]]].
-          cbn [expand_rec] in Hx. destruct (ev x) as [[x' c]|e] eqn:Ex; [|discriminate].
+          cbn [expand_rec_old] in Hx. destruct (ev x) as [[x' c]|e] eqn:Ex; [|discriminate].
           exists (x' :: r1), (c || c1). cbn [expand_list]. rewrite Ex, E1. split; [reflexivity|].
           assert (Hx' : er (S f) x' = Ok y).
           { destruct c; [exact Hx|]. inversion Hx; subst. apply er_stable. exact (stable _ _ Ex). }
@@ -167,9 +169,9 @@ Section Parallel.
       }
       destruct Hl as [xs' [c [E [F T]]]].
       destruct c.
-      + rewrite (expand_rec_changed def retrieve _ _ (CList xs')) by (now rewrite ev_list, E).
+      + rewrite (expand_rec_old_changed def retrieve _ _ (CList xs')) by (now rewrite ev_list, E).
         apply IH. now apply T.
-      + rewrite (F eq_refl) in E. apply expand_rec_unchanged. now rewrite ev_list, E.
+      + rewrite (F eq_refl) in E. apply expand_rec_old_unchanged. now rewrite ev_list, E.
   Qed.
 
   (* ---- maps: entry by entry ------------------------------------------------------------------------------ *)
@@ -194,10 +196,10 @@ Section Parallel.
     - assert (Hl : expand_entries m = Ok (m', false)).
       { induction H as [|[k x] [k' y] r r' [Hk Hx] Hr IHr]; [reflexivity|].
         cbn [fst snd] in Hk, Hx. subst k'.
-        cbn [expand_rec] in Hx. destruct (ev x) as [[x' c]|e] eqn:Ex; [|discriminate].
+        cbn [expand_rec_old] in Hx. destruct (ev x) as [[x' c]|e] eqn:Ex; [|discriminate].
         destruct c; [discriminate|]. inversion Hx; subst.
         cbn [expand_entries]. rewrite Ex, IHr. reflexivity. }
-      apply expand_rec_unchanged. now rewrite ev_map, Hl.
+      apply expand_rec_old_unchanged. now rewrite ev_map, Hl.
     - assert (Hl : exists m1 c, expand_entries m = Ok (m1, c) /\
                    (c = false -> m1 = m') /\
                    (c = true -> Forall2 (entry_ok (S f)) m1 m')).
@@ -205,7 +207,7 @@ Section Parallel.
         - exists [], false. repeat split; auto; discriminate.
         - destruct IHr as [r1 [c1 [E1 [F1 T1]]]].
           cbn [fst snd] in Hk, Hx. subst k'.
-          cbn [expand_rec] in Hx. destruct (ev x) as [[x' c]|e] eqn:Ex; [|discriminate].
+          cbn [expand_rec_old] in Hx. destruct (ev x) as [[x' c]|e] eqn:Ex; [|discriminate].
           exists ((k, x') :: r1), (c || c1). cbn [expand_entries]. rewrite Ex, E1. split; [reflexivity|].
           assert (Hx' : er (S f) x' = Ok y).
           { destruct c; [exact Hx|]. inversion Hx; subst. apply er_stable. exact (stable _ _ Ex). }
@@ -217,9 +219,9 @@ Section Parallel.
       }
       destruct Hl as [m1 [c [E [F T]]]].
       destruct c.
-      + rewrite (expand_rec_changed def retrieve _ _ (CMap m1)) by (now rewrite ev_map, E).
+      + rewrite (expand_rec_old_changed def retrieve _ _ (CMap m1)) by (now rewrite ev_map, E).
         apply IH. now apply T.
-      + rewrite (F eq_refl) in E. apply expand_rec_unchanged. now rewrite ev_map, E.
+      + rewrite (F eq_refl) in E. apply expand_rec_old_unchanged. now rewrite ev_map, E.
   Qed.
 
   (* ---- strings that stay strings: the rounds of a text ----------------------------------------------------- *)
@@ -239,8 +241,8 @@ Section Parallel.
     induction f as [|f IH]; intros o o' H; [discriminate|]. cbn [str_rec] in H.
     destruct (expand_string def retrieve o) as [[w c]|e] eqn:E; [|discriminate].
     destruct w; try discriminate. destruct c.
-    - rewrite (expand_rec_changed def retrieve _ _ (CStr s)) by (now rewrite expand_value_str). now apply IH.
-    - inversion H; subst. apply expand_rec_unchanged. now rewrite expand_value_str.
+    - rewrite (expand_rec_old_changed def retrieve _ _ (CStr s)) by (now rewrite expand_value_str). now apply IH.
+    - inversion H; subst. apply expand_rec_old_unchanged. now rewrite expand_value_str.
   Qed.
 
   Lemma str_rec_mono f : forall o o', str_rec f o = Some o' -> str_rec (S f) o = Some o'.
@@ -262,13 +264,13 @@ Section Parallel.
     er (S f) (CExp x o) = Ok (CExp y o').
   Proof.
     induction f as [|f IH]; intros x o y o' Hs Hx Ho.
-    - cbn [expand_rec] in Hx. destruct (ev x) as [[e c]|err] eqn:Ex; [|discriminate].
+    - cbn [expand_rec_old] in Hx. destruct (ev x) as [[e c]|err] eqn:Ex; [|discriminate].
       destruct c; [discriminate|]. inversion Hx; subst e.
       cbn [str_rec] in Ho. destruct (expand_string def retrieve o) as [[w oc]|err] eqn:Eo; [|discriminate].
       destruct w; try discriminate. destruct oc; [discriminate|]. inversion Ho; subst s.
       pose proof (expand_value_structured def retrieve x y false Hs Ex) as Hy.
-      apply expand_rec_unchanged. rewrite ev_exp, Ex, Eo. destruct y; try discriminate; reflexivity.
-    - cbn [expand_rec] in Hx. destruct (ev x) as [[e c]|err] eqn:Ex; [|discriminate].
+      apply expand_rec_old_unchanged. rewrite ev_exp, Ex, Eo. destruct y; try discriminate; reflexivity.
+    - cbn [expand_rec_old] in Hx. destruct (ev x) as [[e c]|err] eqn:Ex; [|discriminate].
       pose proof (expand_value_structured def retrieve x e c Hs Ex) as He.
       change (str_rec (S (S f)) o) with
         (match expand_string def retrieve o with
@@ -284,22 +286,53 @@ Section Parallel.
         pose proof (expand_string_unchanged def retrieve _ _ Eo) as Hw. inversion Hw; subst.
         cbn [str_rec]. now rewrite Eo. }
       destruct (c || oc) eqn:Ec.
-      + rewrite (expand_rec_changed def retrieve _ _ _ Hev). now apply IH.
+      + rewrite (expand_rec_old_changed def retrieve _ _ _ Hev). now apply IH.
       + apply orb_false_iff in Ec as [-> ->]. inversion Hx; inversion Ho; subst.
-        now apply expand_rec_unchanged.
+        now apply expand_rec_old_unchanged.
   Qed.
 
-  (* a value that IS one reference to a structured value (list / map / scalar) with a text *)
+  (* ---- from rounds to the budgeted loop --------------------------------------------------------------------- *)
+  (* what the rounds of [er f v] add to Resolver.expansions *)
+  Fixpoint total_spent (f : nat) (v : cv) : nat :=
+    match f with
+    | 0 => 0
+    | S f' =>
+        match ev v with
+        | Ok (v', true) => spent def retrieve v + total_spent f' v'
+        | _ => 0
+        end
+    end.
+
+  Lemma bridge f : forall fuel used v y,
+    er f v = Ok y -> used + total_spent f v <= max_expansions -> f <= fuel ->
+    expand_rec def retrieve fuel used v = Ok y.
+  Proof.
+    induction f as [|f IH]; intros fuel used v y H Hb Hf; [discriminate|].
+    destruct fuel as [|fuel]; [lia|]. cbn [expand_rec_old] in H. cbn [total_spent] in Hb. cbn [expand_rec].
+    destruct (ev v) as [[v' c]|e]; [|discriminate]. destruct c; [|exact H].
+    rewrite (budget_ok used (spent def retrieve v)) by lia.
+    apply IH; [exact H|lia|lia].
+  Qed.
+
+  (* a value that IS one reference to a structured value (list / map / scalar) with a text; the budget
+     hypothesis is stated on what the rounds spend *)
   Lemma whole_value_structured n ret o y o' :
     name_ok n = true -> ref_ok def n = true ->
     expand_uri def retrieve (ref_text n) = Ok ret -> as_string ret = Some o ->
     structured (r_raw ret) = true ->
     er 999 (r_raw ret) = Ok y -> str_rec 999 o = Some o' ->
+    1 + total_spent 999 (CExp (r_raw ret) o) <= max_expansions ->
     resolve_string def retrieve (ref_text n) = Ok (CExp (escape_dollars y) (unescape o')).
   Proof.
-    intros Hn Hok He Ho Hs Hy Ho'. unfold resolve_string, resolve_leaf. rewrite max_rounds_S.
-    rewrite (expand_rec_changed def retrieve _ _ (CExp (r_raw ret) o)).
+    intros Hn Hok He Ho Hs Hy Ho' Hb. unfold resolve_string, resolve_leaf. rewrite rec_fuel_S.
+    rewrite (Proofs2.expand_rec_changed def retrieve _ _ _ (CExp (r_raw ret) o)).
     2:{ rewrite expand_value_str, (expand_string_whole def retrieve n ret) by assumption. now rewrite Ho. }
-    change 999 with (S 998) in *. rewrite (exp_parallel 998 _ _ y o' Hs Hy Ho'). reflexivity.
+    2:{ rewrite (spent_whole def retrieve n ret) by assumption. pose proof max_expansions_pos. lia. }
+    rewrite (spent_whole def retrieve n ret) by assumption.
+    change 999 with (S 998) in *.
+    rewrite (bridge (S 998) _ _ _ (CExp y o')); [reflexivity| | |].
+    - now apply exp_parallel.
+    - cbn [Nat.add]. lia.
+    - unfold max_expansions. lia.
   Qed.
 End Parallel.
